@@ -163,7 +163,7 @@ def obs_pipeline(prop, tier, seed, work, t0, flavor="sync"):
     beh = os.path.join(work, "beh.ndjson")
     n = 0
     spec = "SpecHandles" if handles else "Spec"
-    gconst = dict(OBS_MC, Depth=5 if quick else 6)
+    gconst = dict(OBS_MC, Depth=(6 if prop == "C02" else 5) if quick else 7 if prop == "C02" else 6)
     if handles:
         gconst.update(OwnerIds={1, 2, 3}, WeakIds={1, 2}, GuardIds={1})
     c = os.path.join(work, "GenEdge.cfg")
@@ -426,7 +426,8 @@ def vec_pipeline(prop, tier, seed, work, t0):
              ("SpecTxn", dict(Caps={1}, Depth=6 if quick else 7, SubIds={1}, MaxLen=1), "edge"),
              ("SpecStreamsPre", dict(pre, Caps={1, 2}, Depth=4 if quick else 5), "edge"),
              ("SpecTxnCore", dict(pre, Caps={1}, Depth=7 if quick else 8, InitLens={1}), "edge"),
-             ("SpecLag", dict(pre, Caps={1, 2}, Depth=6 if quick else 7, InitLens={1}, PreSubs={2}), "tree")],
+             ("SpecLag", dict(pre, Caps={1, 2}, Depth=6 if quick else 7, InitLens={1}, PreSubs={2}), "tree"),
+             ("SpecLagDeep", dict(pre, Caps={3, 5}, Depth=7 if quick else 9, InitLens={1}, PreSubs={1}, MaxLen=12), "tree")],
         C07=[("SpecTxn", dict(Caps={1, 16}, Depth=5 if quick else 6, SubIds={1}), "edge"),
              ("SpecTxnSmall", dict(pre, Caps={16}, Depth=6 if quick else 7), "edge"),
              ("SpecTxnCore", dict(pre, Caps={16}, Depth=8 if quick else 9), "edge"),
@@ -547,6 +548,8 @@ def ad_plans(prop, quick):
         return [("GSpec", "edge", ad_base(StageKinds=ALL_KINDS, Depth=D, InitLens={2}, Modes={"dyn"}, Params={1, 3}, PipeFlavs=both), 0),
                 ("GSpecLimits", "tree", ad_base(Depth=D if quick else D + 1, Modes={"dyninit"}, Params={1, 3, 4}, InitLens={2}, PipeFlavs=both), 0),
                 ("GSpecCore", "tree", ad_base(StageKinds=ALL_KINDS - LIMIT_KINDS, Depth=D, CoreSet="lean", InitLens={2}, MaxLen=4), 0),
+                ("GSpecTxnWake", "tree", ad_base(StageKinds={"skip", "filter"}, Modes={"static"}, Params={0}, Depth=D + 3, InitLens={0}, MaxLen=4,
+                                                 PipeFlavs=both), 0),
                 ("GSpecTxn", "sim", ad_base(StageKinds=ALL_KINDS, NStages={1, 2, 3}, Depth=40, Caps={1, 16}, InitLens={0, 2, 5}, Params={0, 1, 3},
                                             MaxLen=8, SelfObs={0, 1}, PipeFlavs=both), sim_n(1000, 8000))]
     if prop == "C15":
